@@ -430,6 +430,11 @@ def run(ctx):
                     want = ("repeat", [rows, f"len({cols})"]) if which == "row" else ("tile", [cols, f"len({rows})"])
                 elif order == "F":
                     want = ("tile", [rows, f"len({cols})"]) if which == "row" else ("repeat", [cols, f"len({rows})"])
+                elif order in ("K", "A"):
+                    rep.bad("C15.R4", C, node.ast, f"the dense block is flattened in MEMORY order (ravel(order={order!r})): where an entry lands then depends on the strides of the array the caller "
+                            "happened to pass; an index pattern chosen from the contiguity flags covers C- and F-contiguous blocks only - a slice or strided view of a transposed array is "
+                            "neither, its data come out column-major and are paired with the row-major pattern", f"{COO}:{node.lineno}")
+                    continue
                 else:
                     rep.note("C15.R4: dense ravel order not recognised"); continue
                 if fname and fname.split(".")[-1] == want[0] and a == want[1]:
@@ -500,15 +505,17 @@ def run(ctx):
 def _dense_order(cfg, node):
     """ravel order used by the data extension in the same basic block as `node`."""
     from ..core import parent
-    blk = None
-    p = parent(node.ast)
-    for fld in ("body", "orelse"):
-        b = getattr(p, fld, None)
-        if isinstance(b, list) and any(s is node.ast for s in b):
-            blk = b
-    if blk is None:
+    blks = []
+    child, p = node.ast, parent(node.ast)
+    while p is not None and not isinstance(p, (ast.FunctionDef, ast.ClassDef)):
+        for fld in ("body", "orelse"):
+            b = getattr(p, fld, None)
+            if isinstance(b, list) and any(s is child for s in b):
+                blks.append(b)
+        child, p = p, parent(p)
+    if not blks:
         return None
-    for s in blk:
+    for s in [s_ for b_ in blks for s_ in b_]:
         darg = None
         if isinstance(s, ast.Expr) and isinstance(s.value, ast.Call) and dotted(s.value.func) in ("self.data.extend",):
             darg = s.value.args[0]
@@ -590,4 +597,9 @@ MUTANTS += [
 ]
 NEUTRAL += [
     dict(id="c15-n-r4h", canary=True, what="nested / sparse blocks mapped through a helper that is the plain fancy-index map", file='cardillo/utility/coo_matrix.py', edits=[('cardillo/utility/coo_matrix.py', 'from numpy import repeat, tile, atleast_1d, atleast_2d, arange\n', 'from numpy import repeat, tile, atleast_1d, atleast_2d, arange, asarray\n'), ('cardillo/utility/coo_matrix.py', '    def __setitem__(self, key, value):\n', '    @staticmethod\n    def _global_index(DOF, local):\n        local = asarray(local)\n        return DOF[local]\n\n    def __setitem__(self, key, value):\n'), ('cardillo/utility/coo_matrix.py', '                self.row.extend(rows[value.row])\n                self.col.extend(cols[value.col])\n', '                self.row.extend(self._global_index(rows, value.row))\n                self.col.extend(self._global_index(cols, value.col))\n'), ('cardillo/utility/coo_matrix.py', '                self.row.extend(rows[coo.row])\n                self.col.extend(cols[coo.col])\n', '                self.row.extend(self._global_index(rows, coo.row))\n                self.col.extend(self._global_index(cols, coo.col))\n')]),
+]
+
+MUTANTS += [
+    dict(id="c15-r4-memorder", canary=True, what="[seeded by sub-agent] dense blocks are appended in memory order (ravel(order='K')) with the index pattern chosen from flags.f_contiguous", file=COO,
+         old='                self.data.extend(value.ravel(order="C"))\n                self.row.extend(repeat(rows, len(cols)))\n                self.col.extend(tile(cols, len(rows)))\n', new='                self.data.extend(value.ravel(order="K"))\n                if value.flags.f_contiguous:\n                    self.row.extend(tile(rows, len(cols)))\n                    self.col.extend(repeat(cols, len(rows)))\n                else:\n                    self.row.extend(repeat(rows, len(cols)))\n                    self.col.extend(tile(cols, len(rows)))\n', expect="C15.R4"),
 ]
